@@ -4,52 +4,24 @@
    Only statements here; proofs are `exact <lemma>` from proof/PoolProofB*.v.  The safety half (the task
    ledger: never twice, never both, rejected never runs) is props/C10_pool.v.
 
-   STATUS (honest account; extended as the invariant layers in proof/PoolProofB*.v close)
+   STATUS: all three target theorems are PROVED (every valid parameter record, every event list the model
+   accepts, code as it is: i_fixa = i_fixb = true; i_fixc = true where stuck configurations are analysed)
 
-   PROVED here
+     workers_without_timer_ge_initgo       K: running (or closing with tasks queued) => initGo <= workers counted in
+                                           totalGo that are not effective members of timeoutGroup (+ creations in
+                                           progress)
+     totalgo_minus_timeoutgroup_ge_initgo  the same in the model's bookkeeping: running and b.mutex not write-held
+                                           => initGo <= totalGo - timeoutGroup.n
+     stuck_running_implies_queue_empty     a stuck running pool has an empty queue
+     at_quiescence_none_lost               started, shut down (either kind), stuck => every accepted task is done
+                                           or was returned by ShutdownNow
      workers_can_vanish_refuted            the pinned code (i_fixa = false) strands accepted tasks: witness
      workers_stay_and_all_tasks_run        Example: on the code as it is the same prefix ends with all done
-     parked_worker_has_nothing_to_receive  a worker parked in its select => queue open, context not
-                                           cancelled, queue EMPTY  (every parameter record, every variant)
-     interrupt_branch_only_after_cancel    a worker on the `<-b.interruptCtx.Done()` branch => the context
-                                           is cancelled
-   The last two are steps towards the theorems below, NOT those theorems.
-     pool_counters_B                       (valid parameters) totalGo = uncounted-down workers + creations in
-                                           progress; timeoutGroup.n = effective members (unless cancelled);
-                                           goroutine ids pairwise distinct; map entries are handed-out ids
-
-   PROVED ONE HYPOTHESIS SHORT (rule 3)
-     stuck_running_implies_queue_empty_partial, at_quiescence_none_lost_partial : the full statements below
-     with the single extra hypothesis [invK c] (see props/C12_pool.v); MISSING: invK is preserved by every
-     step.  workers_without_timer_ge_initgo IS the first conjunct of invK, so it has no partial form.
-
-   NOT PROVED YET (full statements; P with pvalid P and i_fixa P = true)
-
-     workers_without_timer_ge_initgo :
-       in every reachable configuration whose pool is live (Start has executed `b.totalGo += n`, state not
-       stopped) and whose queue is not closed-and-empty:
-         initGo <= (counted workers that are not effective members of timeoutGroup) + (creations in progress)
-       and, whenever no goroutine is inside the idle-timer exit's critical section,
-         i_init P <= s_total (c_sh c) - s_gn (c_sh c)
-       missing: this is invariant (K) itself; its proof needs the goroutine-id layer (distinct ids, map
-       entries are live ids) and the timeout-group layer (g.n counts the effective members; an armed/fired
-       idle timer belongs to a member) - both written, the second machine-checked relative to the first.
-
-     stuck_running_implies_queue_empty :
-       exec pstep_cfg (pinit P) evs = Some c -> stuck c -> s_state (c_sh c) = SRunning -> s_q (c_sh c) = []
-       missing: K and the analysis of stuck configurations (see props/C12_pool.v); then: a non-empty queue
-       has no parked worker (parked_worker_has_nothing_to_receive), so a stuck configuration with a
-       non-empty queue has no thread at all, contradicting K.
-
-     at_quiescence_none_lost :   (additionally i_fixb P = true)
-       exec pstep_cfg (pinit P) evs = Some c -> g_began (c_gh c) = true ->
-       g_shut (c_gh c) = true \/ g_now (c_gh c) = true -> stuck c ->
-       forall i, In i (g_acc (c_gh c)) -> In i (g_done (c_gh c)) \/ In i (g_returned (c_gh c))
-       missing: shutdown_completes (C12) for the graceful case; for ShutdownNow the stuck analysis plus
-       "after ShutdownNow returned the queue is empty" (proved in the life-cycle layer); the ledger itself
-       is agent-pool's PoolProof6.accepted_in_ledger_lemma. *)
+   and, on the way: parked_worker_has_nothing_to_receive, interrupt_branch_only_after_cancel (every parameter
+   record, every variant), pool_counters_B (valid parameters).  Proof structure: see props/C12_pool.v.
+*)
 From Ekit Require Import Common Conc PoolModel PoolExamples PoolProofB PoolProofB0 PoolProofB2d PoolProofB2bd PoolProofB3d PoolProofB4d
-  PoolProofB5d PoolProofBz.
+  PoolProofB5d PoolProofBz PoolProofB8.
 
 (* On the code BEFORE the fix: commit dc56be3 (i_fixa = false): a schedule after which the pool is in
    state RUNNING (Start returned nil), no goroutine is left (totalGo = 0), nothing can run any more, and
@@ -105,17 +77,37 @@ Theorem pool_counters_B : forall P evs c, pvalid P -> exec pstep_cfg (pinit P) e
 Proof. exact counters_lemma. Qed.
 Print Assumptions pool_counters_B.
 
-(* ---------- two target theorems, ONE hypothesis short (rule 3: _partial) ---------- *)
-(* [invK c]: see props/C12_pool.v; its preservation by every step is the missing piece *)
-Theorem stuck_running_implies_queue_empty_partial : forall P evs c,
-  pvalid P -> i_fixc P = true -> exec pstep_cfg (pinit P) evs = Some c -> invK c ->
-  stuck c -> s_state (c_sh c) = SRunning -> s_q (c_sh c) = [].
-Proof. exact stuck_running_implies_queue_empty_partial_lemma. Qed.
-Print Assumptions stuck_running_implies_queue_empty_partial.
+(* ---------- C10 (liveness side): the three target theorems ---------- *)
+(* pfixed P := i_fixa P = true /\ i_fixb P = true; [cnt_ning mp x] = 1 iff x is a worker that has not executed
+   its decrement of totalGo and is not an effective member of the timeout group with map mp; [pend] counts the
+   workers already added to totalGo whose `go` statement has not run yet. *)
 
-Theorem at_quiescence_none_lost_partial : forall P evs c,
-  pvalid P -> i_fixc P = true -> exec pstep_cfg (pinit P) evs = Some c -> invK c ->
-  g_shut (c_gh c) = true \/ g_now (c_gh c) = true -> stuck c ->
+(* K: while the pool is running (or closing with tasks still queued) at least initGo of the workers counted
+   in totalGo carry no idle timer - the invariant the first fix: commit makes inductive *)
+Theorem workers_without_timer_ge_initgo : forall P evs c,
+  pvalid P -> pfixed P -> exec pstep_cfg (pinit P) evs = Some c ->
+  s_state (c_sh c) = SRunning \/ (s_state (c_sh c) = SClosing /\ s_q (c_sh c) <> []) ->
+  i_init P <= PoolProofB0.tsum (cnt_ning (s_mp (c_sh c))) (c_thr c) + PoolProofB0.tsum pend (c_thr c).
+Proof. exact workers_without_timer_ge_initgo_full. Qed.
+Print Assumptions workers_without_timer_ge_initgo.
+
+(* ... and in the model's own bookkeeping: whenever no goroutine is inside b.mutex's write section *)
+Theorem totalgo_minus_timeoutgroup_ge_initgo : forall P evs c,
+  pvalid P -> pfixed P -> exec pstep_cfg (pinit P) evs = Some c ->
+  s_state (c_sh c) = SRunning -> s_bw (c_sh c) = false ->
+  i_init P <= s_total (c_sh c) - s_gn (c_sh c).
+Proof. exact bookkeeping_ge_initgo_full. Qed.
+Print Assumptions totalgo_minus_timeoutgroup_ge_initgo.
+
+Theorem stuck_running_implies_queue_empty : forall P evs c,
+  pvalid P -> pfixed P -> i_fixc P = true -> exec pstep_cfg (pinit P) evs = Some c ->
+  stuck c -> s_state (c_sh c) = SRunning -> s_q (c_sh c) = [].
+Proof. exact stuck_running_implies_queue_empty_full. Qed.
+Print Assumptions stuck_running_implies_queue_empty.
+
+Theorem at_quiescence_none_lost : forall P evs c,
+  pvalid P -> pfixed P -> i_fixc P = true -> exec pstep_cfg (pinit P) evs = Some c ->
+  g_began (c_gh c) = true -> g_shut (c_gh c) = true \/ g_now (c_gh c) = true -> stuck c ->
   forall i, In i (g_acc (c_gh c)) -> In i (g_done (c_gh c)) \/ In i (g_returned (c_gh c)).
-Proof. exact at_quiescence_none_lost_partial_lemma. Qed.
-Print Assumptions at_quiescence_none_lost_partial.
+Proof. exact at_quiescence_none_lost_full. Qed.
+Print Assumptions at_quiescence_none_lost.
